@@ -1,9 +1,11 @@
 # Table consumed by tools/mkmanifest.py.  Keep in step with DESIGN.md section 0.
-HOOK_COMMITS = ['e70c2587']
+HOOK_COMMITS = ['e70c2587', '617a5e89']
 NOTES = ('Solver-based checking of the real code: Kani/CBMC harnesses (engine K), a MIR symbolic executor with z3 (engine M), '
          'SMT tables over the real reflection database and doc tables (engine Z). exit 2 = inconclusive (never success, never violation). '
          'Known findings: known_findings.json.')
 ENGINES = [
+    dict(name='M', path='vlib/mirsym/', serves_properties=['C09', 'C10', 'C11', 'C12'],
+         kind_free_text='symbolic executor over rustc MIR text (regenerated from /repo each run) with z3: forking on solver-feasible branches, contract models for std containers, postconditions as unsat queries, counterexamples replayed natively by tools/replayer'),
     dict(name='K', path='vlib/kani.py + kani/*.rs', serves_properties=['C01', 'C03', 'C13', 'C15', 'C17'],
          kind_free_text='Kani 0.68 proof harnesses compiled into the real crates through a cfg-guarded include; CBMC decides; counterexamples replayed natively with cargo kani playback'),
 ]
@@ -21,7 +23,17 @@ claim('C15', 'PropertyMigration::perform is total on every legacy value the real
 claim('C17', 'Faces/Axes/BrickColor/FontWeight/FontStyle/SecurityCapabilities conversions over their full domains; Ref and UniqueId parsers accept their own text form for all values (print side modelled by a validated harness printer). Partial: serde encodings outside.',
       'Kani/CBMC; core::fmt print side replaced by a harness printer validated natively', 'Kani proof harnesses (CBMC/SAT)', 'DESIGN.md section 5 C17', 'K')
 
+DOM_NOTE = 'inductive step: every forest shape of the stated size with symbolic Refs/arguments through the real MIR of each operation; assumptions A1/A2 (Ref / UniqueId freshness), Ref as opaque identity, container contract models; see evidence.assumptions'
+claim('C09', 'From every valid WeakDom state within the bound (<=4 nodes per DOM quick, <=5 thorough; second DOM <=2/3) each of the seven operations, called within its documented preconditions with fully symbolic arguments, preserves the forest invariant on every DOM involved, never panics, leaves removed subtrees unresolvable, and descendants_of yields the reachable set parents-first. Because the pre-state is arbitrary, histories of any length that stay within the bound are covered.',
+      DOM_NOTE, 'symbolic execution of rustc MIR with z3 (inductive invariant step), native replay of counterexamples', 'DESIGN.md section 5 C09', 'M')
+claim('C10', 'Same symbolic step, postcondition = equality with a reference model (plain ordered trees executing the documented meaning) plus a frame condition on every instance the operation does not name (referent, parent, sibling position, name, class, every property).',
+      DOM_NOTE, 'symbolic execution of rustc MIR with z3, differential against a reference model per path', 'DESIGN.md section 5 C10', 'M')
+claim('C11', 'clone_within / clone_into_external / clone_multiple_into_external: fresh parentless copies isomorphic in shape, order, names, classes and non-Ref properties; every symbolic Ref property satisfies the three-way rewrite rule (decided by z3 per property); source untouched; also under every hash-iteration order (small bound).',
+      DOM_NOTE, 'symbolic execution of rustc MIR with z3, rewrite rule as an SMT formula per Ref property', 'DESIGN.md section 5 C11', 'M')
+claim('C12', 'unique_ids bookkeeping equals the ids held and ids stay pairwise distinct after every operation from any valid state with symbolic (possibly colliding) incoming ids; an id is replaced iff it collides with one present in the destination and preserved otherwise; destroy/transfer free ids. Partial: UniqueId::now itself is a freshness contract here (interleavings of now(): not yet part of the claim); reader-produced DOMs outside.',
+      DOM_NOTE, 'symbolic execution of rustc MIR with z3 (inductive invariant over the hidden bookkeeping set), native replay incl. probes of the hidden set', 'DESIGN.md section 5 C12', 'M')
+
 NA['C02'] = 'XML text path runs through xml-rs (third-party character state machines) and core::fmt/dec2flt float text; neither Kani nor the MIR engine can encode them within reach (DESIGN.md C02)'
 NA['C05'] = 'needs an independent XML parser reading xml-rs emitter output and the xml-rs tokenizer reading foreign documents; not encodable (DESIGN.md C05)'
-for p in ('C04', 'C06', 'C07', 'C08', 'C09', 'C10', 'C11', 'C12', 'C14', 'C16', 'C18'):
+for p in ('C04', 'C06', 'C07', 'C08', 'C14', 'C16', 'C18'):
     NA[p] = NOT_BUILT
